@@ -79,6 +79,8 @@ theorem removed_by_address_is_gone (a b c : Nat) (ops : List Op) (x : Addr) (qs 
     show (run _ (ops ++ [Op.rmAddr x] ++ qs)).g = _
     rw [run_append _ (ops ++ [Op.rmAddr x]) qs]; exact run_queries_g _ qs hq
   rw [h1, run_append]
+  show p.key ∉ (step (run (init a b c) ops) (Op.rmAddr x)).g.keys
+  rw [step_g (cache_coherent a b c ops)]
   exact mem_keys_removeByAddress _ x p hp hx (cache_coherent a b c ops).keysNodup
 
 /-- … and can be added again: after the removal (and any queries), add_verified_peer with the same key makes the
@@ -117,6 +119,8 @@ theorem removed_by_address_can_be_added_again (a b c : Nat) (ops : List Op) (x :
       show (run _ (ops ++ [Op.rmAddr x] ++ qs)).g = _
       rw [run_append _ (ops ++ [Op.rmAddr x]) qs]; exact run_queries_g _ qs hq
     rw [h1, run_append, hkey]
+    show p.key ∉ (step (run (init a b c) ops) (Op.rmAddr x)).g.keys
+    rw [step_g (cache_coherent a b c ops)]
     exact mem_keys_removeByAddress _ x p hp hx (cache_coherent a b c ops).keysNodup
   have hc' : Coherent (step s (Op.add p')) := coherent_step hc _
   have hmem : p' ∈ (step s (Op.add p')).g.verified := by
